@@ -1,5 +1,6 @@
 import Driver.Common
 import Driver.OpsBrake
+import Driver.OpsDisp
 import Driver.OpsEst
 import Driver.OpsHist
 import Driver.OpsMass
@@ -13,6 +14,7 @@ import Driver.OpsTrain
 namespace Driver
 def allHandlers : List (String × Handler) :=
   Driver.OpsBrake.handlers ++
+  Driver.OpsDisp.handlers ++
   Driver.OpsEst.handlers ++
   Driver.OpsHist.handlers ++
   Driver.OpsMass.handlers ++
